@@ -31,6 +31,7 @@ func init() {
 			{ID: "C12.R10", Floor: 1, Doc: "the sign extension of a short varint subtracts exactly 2^(8*len) (=C02.R9)", Run: signExtendAmount},
 			{ID: "C12.R11", Floor: 4, Doc: "element loops of the tuple / UDT decoders consume every element they pass over", Run: c12r11},
 			{ID: "C12.R12", Floor: 3, Doc: "collection / UDT decoders give every element its own destination: the reflect value an element is decoded into is created in that element's iteration (or is the element's own slot)", Run: c12r12},
+			{ID: "C12.R13", Floor: 1, Doc: "no slice in the marshalling code is made with a non-zero length and then only grown by append", Run: c12r13},
 			{ID: "C12.R6", Floor: 6, Doc: "vint coding agrees with the specification on its finite domains", Run: c12r6},
 		},
 	})
